@@ -146,6 +146,8 @@ func exec(op string) (res string) {
 	case "rsess", "rsessx":
 		return execRetry(op)
 	case "walk":
+		return reduceWalk(execWalk(op))
+	case "walko":
 		return execWalk(op)
 	}
 	return "bad-op"
